@@ -257,3 +257,17 @@ fn test_toposort_impl_cycles() {
     let res = toposort_impl(&dag);
     assert!((res == vec![0, 1, 2]) || (res == vec![1, 0, 2]))
 }
+
+/// Verification hooks: visibility only, compiled with `--cfg typeshare_verif`.
+#[cfg(typeshare_verif)]
+pub mod verif_hooks {
+    /// The real `toposort_impl`.
+    #[allow(clippy::ptr_arg)]
+    pub fn toposort_impl(graph: &Vec<Vec<usize>>) -> Vec<usize> {
+        super::toposort_impl(graph)
+    }
+    /// The real `sort_by_indices`.
+    pub fn sort_by_indices<T>(data: &mut [T], indices: Vec<usize>) {
+        super::sort_by_indices(data, indices)
+    }
+}
